@@ -675,7 +675,8 @@ def analyze_window_classes(facts, fty):
     top = 1 << 64
     ctx = Ctx(facts, "valid")
     ctx.record = True
-    eas = find_insts(facts, "minimal_lexical::bellerophon::error_is_accurate", fty)
+    from audit.roles import actual, CANON_EIA
+    eas = find_insts(facts, actual(facts, CANON_EIA), fty)
     rounds = [m for m in find_insts(facts, "minimal_lexical::rounding::round", fty) if _reaches(facts, m, ("rounding::round_nearest_tie_even",))]
     dummy = {"dpath": "minimal_lexical::bellerophon::error_is_accurate", "path": "error_is_accurate", "targs": [], "krate": "minimal_lexical"}
     if not eas or not rounds:
@@ -755,15 +756,17 @@ def analyze_truncflag(facts, fty):
     G.reset()
     if compact:
         scale = None
-        for m in find_insts(facts, "minimal_lexical::bellerophon::error_scale"):
+        from audit.roles import actual, CANON_EIA, CANON_SCALE
+        eia = actual(facts, CANON_EIA)
+        for m in find_insts(facts, actual(facts, CANON_SCALE)):
             c1 = analyze_fn(facts, m, "valid", ctx=ctx)
             for st, rv in c1.exit_states:
                 if isinstance(rv, int) and rv in G.base and st.get_iv(rv)[0] == st.get_iv(rv)[1]:
                     scale = st.get_iv(rv)[0]
         G.reset()
-        ctx.arg_log = {"bellerophon::error_is_accurate": []}
+        ctx.arg_log = {eia: []}
         c2 = analyze_fn(facts, inst, "valid", ctx=ctx, pre=pre)
-        calls = ctx.arg_log["bellerophon::error_is_accurate"]
+        calls = ctx.arg_log[eia]
         ctx.arg_log = None
         los = [a[0][0] for _f, a in calls if a and a[0] is not None]
         good = scale is not None and scale >= 1 and bool(calls) and len(los) == len(calls) and min(los) >= scale
